@@ -462,7 +462,7 @@ def args_for(op, cols):
 
 RESHAPE_OPS = {"select", "unselect", "rename", "cbind", "update", "modify", "rbind_self", "rbind_partner", "colnames",
                "slice_cols", "slice_off_cols", "setitem", "setattr", "delitem", "pop", "popitem", "poke", "copy",
-               "grouped_modify", "cbind_self", "update_self", "noarg"}
+               "grouped_modify", "cbind_self", "update_self", "update_all", "noarg"}
 
 
 def reshape_op(level, op):
